@@ -5,6 +5,7 @@ package cert
 import (
 	"fmt"
 	"os"
+	"runtime/debug"
 	"testing"
 
 	"github.com/relab/hotstuff/security/crypto"
@@ -32,15 +33,49 @@ func TestVerifC02(t *testing.T) {
 	if v.Thorough() || os.Getenv("VERIF_SEARCH") != "" {
 		ns = []int{1, 2, 3, 4, 5, 6, 7, 8, 9, 10, 11, 12, 13}
 	}
+	// a panic while a world is being built or driven (outside the guarded calls) is reported as an
+	// oracle failure with the panic text instead of killing the run
+	guard := func(what string, f func()) {
+		defer func() {
+			if r := recover(); r != nil {
+				v.Oracle(false, "harness:panic:"+what, fmt.Sprintf("panic outside a guarded call while driving %s: %v", what, r),
+					map[string]any{"world": what, "panic": fmt.Sprint(r), "stack": string(debug.Stack())})
+			}
+		}()
+		f()
+	}
 	for _, scheme := range []string{crypto.NameECDSA, crypto.NameEDDSA, crypto.NameBLS12} {
 		for _, n := range ns {
-			w := c02NewWorld(v, scheme, n)
-			c02QCStream(w, st)
-			c02TCStream(w, st)
-			c02AggStream(w, st)
-			c02CreateStream(w, st)
-			c02SchemeStream(w, st)
+			guard(fmt.Sprintf("%s n=%d", scheme, n), func() {
+				w := c02NewWorld(v, scheme, n)
+				c02QCStream(w, st)
+				c02TCStream(w, st)
+				c02AggStream(w, st)
+				c02CreateStream(w, st)
+				c02SchemeStream(w, st)
+			})
 		}
+		// non-contiguous and large replica ids; ids that agree in their low 8 / 16 bits; type boundaries
+		sparse := [][]uint64{{3, 259, 65539, 1048579, 515}}
+		if scheme == crypto.NameBLS12 {
+			sparse = append(sparse, []uint64{1, 255, 256, 65535, 65536, 32768}) // a bitfield cannot hold 2^32-1
+		} else {
+			sparse = append(sparse, []uint64{1, 255, 256, 65536, 4294967295, 4294967294})
+		}
+		for _, ids := range sparse {
+			guard(fmt.Sprintf("%s ids=%v", scheme, ids), func() {
+				w := c02NewWorldIDs(v, scheme, len(ids)-1, ids)
+				w.sparse = true
+				c02QCStream(w, st)
+				c02TCStream(w, st)
+				c02AggStream(w, st)
+				c02CreateStream(w, st)
+				c02SchemeStream(w, st)
+			})
+		}
+		// membership that grows after the Authority was created
+		guard(scheme+" growth", func() { c02GrowthStream(v, st, scheme, nil) })
+		guard(scheme+" growth sparse", func() { c02GrowthStream(v, st, scheme, []uint64{2, 258, 65538, 7, 263, 65543, 9}) })
 	}
 	v.Close("one evaluation = one call of Authority.Verify*/Create* or crypto.Base.Verify/BatchVerify/Combine on a certificate built with real keys; non-trivial = the signature object has at least one component and the verdict is not decided by the participant count alone")
 }
@@ -62,6 +97,10 @@ func (w *c02World) evalQC(st *c02Streams, q *c02QC, mut string, honest bool) {
 				}
 			}
 			meta := w.meta("qc", mut, q.term, vi, cache, o)
+			if !cache && w.grow == nil { // a long-lived Authority must answer like a fresh one
+				ol := c02Run(func() error { return w.long[vi].VerifyQuorumCert(q.obj) })
+				w.oracle(ol == o, "qc:stateful-verdict", "a long-lived Authority (no cache) answers "+ol+" where a fresh one answers "+o, meta)
+			}
 			key := fmt.Sprintf("qc|%s|%d|%s|%d|%v", w.scheme, w.n, q.term, vi, cache)
 			nontrivial := len(q.sig.labels) >= w.q && q.hash != 1
 			w.v.Seen(key, nontrivial, meta)
@@ -89,6 +128,9 @@ func (w *c02World) wantCall(mut string, honest bool, vi int, cache bool) bool {
 	if vi > 0 && cache {
 		return false
 	}
+	if w.grow != nil {
+		return vi == 0
+	}
 	if w.v.Thorough() && mut != "enum-labels" {
 		return true
 	}
@@ -110,9 +152,17 @@ func (w *c02World) wantCall(mut string, honest bool, vi int, cache bool) bool {
 	return vi == 0
 }
 
+func (w *c02World) rnd(q, t int) int {
+	k := w.v.Pick(q, t)
+	if w.sparse || w.grow != nil {
+		k /= 3
+	}
+	return k
+}
+
 func (w *c02World) meta(kind, mut, term string, vi int, cache bool, o string) map[string]any {
 	return map[string]any{"call": kind, "scheme": w.scheme, "n": w.n, "quorum": w.q, "mutation": mut, "certificate": term,
-		"verifier": w.vers[vi].id, "cache": cache, "observed": o, "store": w.storeTm}
+		"verifier": w.ids[w.vers[vi].id-1], "members": w.membersTerm(), "cache": cache, "cache_capacity": w.cacheCap, "observed": o, "store": w.storeTm}
 }
 
 // parts helpers
@@ -230,6 +280,9 @@ func c02QCStream(w *c02World, st *c02Streams) {
 	w.evalQC(st, w.mkQC(hq, 1, "Z"), "hash-relabelled-zero", false)
 	w.evalQC(st, w.mkQC(w.render(c02Spec{parts: w.genuine(c02Range(1, w.q), w.mBlock("BM"))}), 3, "BM"), "block-not-stored", false)
 	w.evalQC(st, w.mkQC(w.render(c02Spec{parts: w.genuine(c02Range(1, w.q), w.mBlock("BH"))}), (1<<63)+5, "BH"), "honest-extreme-view", true)
+	// a block that is not stored locally but that blockchain.Get fetches from a peer
+	w.evalQC(st, w.mkQC(w.render(c02Spec{parts: w.genuine(c02Range(1, w.q), w.mBlock("BF"))}), 7, "BF"), "honest-fetched-block", true)
+	w.evalQC(st, w.mkQC(w.render(c02Spec{parts: w.genuine(c02Range(1, w.q), w.mBlock("BF"))}), 6, "BF"), "fetched-block-view-relabelled", false)
 	// genesis
 	w.evalQC(st, w.mkQC(w.render(c02Spec{absent: true}), 0, "G"), "genesis", true)
 	w.evalQC(st, w.mkQC(hq, 0, "G"), "genesis-with-some-signature", false)
@@ -238,7 +291,7 @@ func c02QCStream(w *c02World, st *c02Streams) {
 	w.evalQC(st, w.mkQC(w.render(c02Spec{absent: true}), 0, "Z"), "zero-value-qc", false)
 
 	// exhaustive small scope: every label sequence of length 0..q+1 over ids 1..n+1, genuine signatures
-	if w.n <= 4 {
+	if w.n <= 4 && !w.sparse {
 		ids := w.n + 1
 		var rec func(prefix []uint64)
 		rec = func(prefix []uint64) {
@@ -253,7 +306,7 @@ func c02QCStream(w *c02World, st *c02Streams) {
 		rec(nil)
 	}
 	// seeded random stream
-	for k := 0; k < w.v.Pick(30, 400); k++ {
+	for k := 0; k < w.rnd(30, 400); k++ {
 		sp, _ := w.randomSpec(mB1, []c02Msg{mB2, mV, w.mBlock("B2b")})
 		view, blk := uint64(1), "B1"
 		switch w.v.rng.Intn(10) {
